@@ -24,6 +24,7 @@ from . import names_run
 from . import namecheck as nc
 
 import supp
+import supp.scope
 from supp.linter import lint
 from supp.assistant import assist, location
 from supp.project import Project
@@ -202,7 +203,8 @@ DEGENERATE = [
     ('locals-conditional', 'def f(c):\n    if c:\n        locals = 1\n    return locals()\n'), ('locals-rebound', 'locals = dict\nlocals()\n'),
     ('match', 'match x:\n    case 1:\n        y = 1\n    case [a, b]:\n        y = a\ny\n'), ('type-params', 'def f[T](x: T) -> T:\n    return x\nf\n'),
     ('except-star', 'try:\n    pass\nexcept* ValueError as e:\n    e\n'), ('walrus-comp', '[y := 1, y]\ny\n'),
-    ('builtin-cursor', 'len\nprint\nTrue\n__name__\n'), ('literal-attr', '"".join\n(1).real\n[].append\n{}.get\n'),
+    ('builtin-cursor', 'len\nprint\nTrue\n__name__\n'), ('super-call', 'class A(dict):\n    def f(self):\n        super().f\n        super(A, self).g\nsuper().x\n'),
+    ('runtime-class-calls', 'import collections, threading, io\ncollections.OrderedDict().keys\nthreading.Thread().start\nio.StringIO().read\nmemoryview().x\nproperty().fget\nrange().start\nslice().x\ntype().x\n'), ('literal-attr', '"".join\n(1).real\n[].append\n{}.get\n'),
     ('compiled-module', 'import itertools, math, sys\nitertools.chain\nmath.pi\nsys.path\n'),
     ('unknown-module', 'import nonexist\nnonexist.x\nfrom nonexist import y\ny\nfrom nonexist.sub import z\n'),
     ('half-import', 'import \n'), ('half-from', 'from \n'), ('half-from-import', 'from os import \n'), ('from-dot', 'from . import x\nx\n'),
@@ -237,6 +239,9 @@ CYCLIC_PROJECTS = {
 def run_text(P, text, fn, label, part, cursors, wit):
     out = []
     seen = set()
+    # the builtin scope is a process-global memo (RuntimeName._instance ...): every text starts from a fresh one,
+    # otherwise a failure may depend on what this worker analysed before and not reproduce on replay
+    supp.scope.builtin_scope.__dict__.pop('names', None)
     for sig, what in check_lint(P, text, fn, label, part):
         if sig not in seen:
             seen.add(sig)
